@@ -1,0 +1,49 @@
+//! Verification hooks, compiled only with the cargo feature `verif`.
+//!
+//! A yield point is a place where a test scheduler may take control of the
+//! calling thread (to enumerate interleavings of concurrent max-flow runs that
+//! share an upper bound). Without an installed callback a yield point does
+//! nothing, except for sleeping a few pseudo-random microseconds when the
+//! environment variable TOOLBOX_RS_VERIF_JITTER is set (timing noise).
+use std::sync::{Arc, OnceLock, RwLock};
+
+#[derive(Clone, Copy, Debug, PartialEq, Eq)]
+pub enum YieldKind {
+    /// immediately before the shared upper bound is loaded
+    BoundLoad,
+    /// immediately before the shared upper bound is lowered with fetch_min
+    BoundFetchMin,
+}
+
+type Callback = Arc<dyn Fn(YieldKind, i32) + Send + Sync>;
+
+fn slot() -> &'static RwLock<Option<Callback>> {
+    static SLOT: OnceLock<RwLock<Option<Callback>>> = OnceLock::new();
+    SLOT.get_or_init(|| RwLock::new(None))
+}
+
+/// install (or with `None` remove) the process-wide yield callback
+pub fn set_yield_callback(callback: Option<Callback>) {
+    *slot().write().unwrap() = callback;
+}
+
+fn jitter() -> bool {
+    static JITTER: OnceLock<bool> = OnceLock::new();
+    *JITTER.get_or_init(|| std::env::var_os("TOOLBOX_RS_VERIF_JITTER").is_some())
+}
+
+/// called by instrumented code; `flow` is the flow the caller has accumulated
+pub fn yield_point(kind: YieldKind, flow: i32) {
+    let callback = slot().read().unwrap().clone();
+    if let Some(callback) = callback {
+        callback(kind, flow);
+    } else if jitter() {
+        use std::time::{Duration, SystemTime, UNIX_EPOCH};
+        let nanos = SystemTime::now()
+            .duration_since(UNIX_EPOCH)
+            .map(|d| d.subsec_nanos())
+            .unwrap_or(0);
+        let micros = (nanos.wrapping_mul(2654435761) >> 26) as u64; // 0..63
+        std::thread::sleep(Duration::from_micros(micros));
+    }
+}
